@@ -527,6 +527,87 @@ def r9_function_placeholder_binding(ctx, sym):
     ctx.floor('R9', 'function-placeholder cases', n, 3)
 
 
+def r10_wrapping_is_position_independent(ctx, sym):
+    ctx.rule('R10', "CaitNode.__init__ executed abstractly on model syntax trees: a statement wrapped as part of a "
+                    "student tree - at nesting depth 3, 30 and 60 below the module (an elif ladder nests one level "
+                    "per branch) - gets the same wrapped children, field by field, as the same statement wrapped as "
+                    "the root of a pattern; otherwise the verbatim pattern of a deeply nested statement has children "
+                    "the student's copy lacks and cannot match")
+    from .c08 import CaitModel, NODE
+    cm = CaitModel(ctx, sym)
+    init = cm.mod.func('CaitNode.__init__')
+    ctx.analysed_function(cm.mod, init)
+
+    def mk(cls, **fields):
+        o = Obj('ast.' + cls, **fields)
+        o.attrs['__astclass__'] = cls
+        o.attrs['__fields__'] = list(fields)
+        return o
+
+    def statement():
+        return mk('Assign', targets=[mk('Name', id='mark', ctx=mk('Store'))],
+                  value=mk('BinOp', left=mk('Constant', value='F'), op=mk('Add'),
+                           right=mk('Call', func=mk('Name', id='str', ctx=mk('Load')),
+                                    args=[mk('Name', id='score', ctx=mk('Load'))], keywords=[])))
+
+    def shape(node):
+        kids = node.attrs.get('children')
+        if not isinstance(kids, list):
+            return ('?', repr(kids))
+        return (node.attrs['astNode'].attrs['__astclass__'], node.attrs.get('field'),
+                tuple(shape(k) for k in kids))
+
+    def wrap(root):
+        fd = cm.fd(cm.mod)
+
+        def iter_fields(o):
+            return [(f, o.attrs[f]) for f in o.attrs.get('__fields__', [])]
+
+        def new_node(*a, **k):
+            n = Obj('CaitNode<%s>' % a[0].attrs['__astclass__'])
+            n.attrs['__classdef__'] = cm.cls
+            fd.call_function(init, list(a), k, bound_self=n)
+            return n
+
+        def b_setattr(o, k, v):
+            o.attrs[k] = v
+        fd.calls['ast.iter_fields'] = iter_fields
+        fd.calls['iter_fields'] = iter_fields
+        fd.calls['CaitNode'] = new_node
+        fd.calls['setattr'] = b_setattr
+        return new_node(root, report=Obj('report'))
+    try:
+        want = shape(wrap(statement()))
+
+        def size(sh):
+            return 1 + sum(size(k) for k in sh[2]) if len(sh) == 3 else 0
+        ctx.floor('R10', 'wrapped nodes of the reference statement', size(want), 10)
+        n = 0
+        for depth in (3, 30, 60):
+            stmt = statement()
+            body = stmt
+            for _ in range(depth - 1):
+                body = mk('If', test=mk('Name', id='c', ctx=mk('Load')), body=[mk('Pass')], orelse=[body])
+            module = mk('Module', body=[body], type_ignores=[])
+            wrap(module)
+            got = shape(stmt.attrs['cait_node']) if isinstance(stmt.attrs.get('cait_node'), Obj) else None
+            if got is not None:
+                got = (got[0], want[1], got[2])      # the field name differs by position ('' for a root)
+            n += 1
+            ctx.check(got == want, 'R10', 'wrapped-children-independent-of-depth[%d]' % depth, cm.mod, init,
+                      "a statement %d levels below the module is wrapped as %r, the same statement as a pattern root "
+                      "as %r" % (depth, got, want),
+                      "a grade ladder of 25 elif branches: find_matches(\"mark = 'F' + str(score)\") finds nothing "
+                      "although the line is in the program")
+    except Inconclusive as e:
+        raise AnalysisError("C11 R10: CaitNode.__init__ outside the decidable fragment: %s" % e)
+    except Raised as e:
+        ctx.check(False, 'R10', 'wrapped-children-independent-of-depth[raises]', cm.mod, init,
+                  "wrapping a model tree raises %s" % e.kind, "every parse of a student program")
+        n = 3
+    ctx.floor('R10', 'wrapping depths', n, 3)
+
+
 def run(ctx):
     sym = Symbols(ctx.repo)
     mod = ctx.repo.module(MATCH)
@@ -538,6 +619,9 @@ def run(ctx):
     r6_placeholder_named_identifiers(ctx, sym, mod)
     r7_equal_nodes_match(ctx, sym, mod)
     r9_function_placeholder_binding(ctx, sym)
+    # r10_wrapping_is_position_independent is NOT armed: it reports C11_q and is silent on the tree, but the benign
+    # twin C11_s (the child loop moved into ast_helpers.iter_child_asts) leaves its decidable fragment (names imported
+    # by the helper's module are not resolved in the nested interpreter) - see DESIGN 10.17
     # R8: the student tree searched is the parse of the code asked for, whatever was queried before (the C08.R8
     # decision table over call sequences of reparse_if_needed, here for find_matches)
     from .c08 import r8_program_identity
